@@ -2153,9 +2153,18 @@ func opcodeCheckMultiSig(op *ParsedOpcode, t *thread) error {
 	// Get script starting from the most recent bscript.OpCODESEPARATOR.
 	script := t.subScript()
 
+	// As for OP_CHECKSIG, the script code is only cleaned up for legacy
+	// signatures: their pushes are removed from it up front, and code
+	// separators are dropped only where such a signature's legacy digest is
+	// computed. A FORKID signature always signs the script code as it stands.
+	legacySig := func(sig []byte) bool {
+		return !t.hasFlag(scriptflag.EnableSighashForkID) || len(sig) == 0 ||
+			!sighash.Flag(sig[len(sig)-1]).Has(sighash.ForkID)
+	}
 	for _, sigInfo := range signatures {
-		script = script.removeOpcodeByData(sigInfo.signature)
-		script = script.removeOpcode(bscript.OpCODESEPARATOR)
+		if legacySig(sigInfo.signature) {
+			script = script.removeOpcodeByData(sigInfo.signature)
+		}
 	}
 
 	success := true
@@ -2234,7 +2243,11 @@ func opcodeCheckMultiSig(op *ParsedOpcode, t *thread) error {
 			continue
 		}
 
-		up, err := t.scriptParser.Unparse(script)
+		sigScript := script
+		if legacySig(rawSig) {
+			sigScript = script.removeOpcode(bscript.OpCODESEPARATOR)
+		}
+		up, err := t.scriptParser.Unparse(sigScript)
 		if err != nil {
 			t.dstack.PushBool(false)
 			return nil //nolint:nilerr // only need a false push in this case
